@@ -222,7 +222,7 @@ def nontrivial_key(site, opts):
 def build_site(case):
     rng = random.Random(case['site_seed'])
     return sitegen.generate(rng, n_pages=case.get('n_pages'), redirects=case.get('redirects', True), junk_links=True,
-                            link_redirect_targets=case.get('link_redirect_targets', False))
+                            link_redirect_targets=case.get('link_redirect_targets', False), frames=True)
 
 
 def worker(job):
